@@ -88,6 +88,13 @@ B. Opaque real arithmetic, ONLY inside the contracts listed in OPAQUE = {contrac
     c05_* (they need the lemmas (5) only): every definition instance introduces half a dozen real-valued arguments of
     uninterpreted symbols, and z3's theory combination (interface equalities between them) then dominates the run time.
 
+(8) (changes TRIGGERS only) in the obligations of the PROGRAM (not in the lemma proofs) the recurrence axiom of the ghost
+    sequence,  forall k, j {c05_x?(k + 1, j)}: c05_x?(k + 1, j) == ...,  gets the multi-pattern {c05_x?(k + 1, j), stp05?(k)}:
+    it fires only for the step k at which the contract placed the marker stp05?(k) (`True` at run time; axiom
+    forall k {stp05?(k)}: stp05?(k)).  z3 matches the trigger c05_x?(k + 1, j) against ANY term c05_x?(T, j) by solving
+    k = T - 1, and the instance mentions c05_x?(T - 1, .): an endless descending chain that made single obligations
+    seed-dependent (10 ms .. 10 s).  The quantifier body is unchanged, so nothing is added or removed logically.
+
 C. Nothing else: slices, slice stores, element-wise array arithmetic and loops are the base engine's.
 """
 from __future__ import annotations
@@ -455,6 +462,9 @@ def _lemmas(E):
         mark = z3.Function("macro.d" + n + sg, *([R] * len(vs) + [B]))(*vs)
         inst["axioms"].append(z3.ForAll(vs, z3.And(mark, lhs == rhs), patterns=[mark]))
     E._c05_defs = {a.get_id() for a in inst["axioms"]}
+    kq = z3.Int("k!m05")
+    stp = z3.Function("macro.stp05" + sg, I, B)(kq)
+    inst["axioms"].append(z3.ForAll([kq], stp, patterns=[stp]))          # marker of (8): always true
     sk = [E.fresh(n, R) for n in ("a", "b", "u1", "x1", "u2", "x2")]
     qv = [z3.Real(n + "!c05") for n in ("a", "b", "u1", "x1", "u2", "x2")]
     for (name, _, body, _), (_, vs, qbody, pat) in zip(_lemma_bodies(sg, *sk), _lemma_bodies(sg, *qv)):
@@ -492,6 +502,31 @@ if not getattr(verify, "_c05_check", False):
     verify._c05_check = True
 
 
+# ------------------------------------------------------------------------------------------- B (8) step marker
+def _with_step_marker(E, q):
+    """forall k, j {c05_x?(k + 1, j)}: body   ->   forall k, j {c05_x?(k + 1, j), stp05?(k)}: body"""
+    cache = E.__dict__.setdefault("_c05_marked", {})
+    qid = q.get_id()
+    if qid in cache:
+        return cache[qid][1]
+    out = q
+    sg = OPAQUE.get(getattr(E.c, "key", None))
+    fx = None
+    for k_, inst in E.spec_inst.items():
+        if inst.get("name") == "c05_x" + sg:
+            fx = inst["f"]
+    if (fx is not None and z3.is_quantifier(q) and q.is_forall() and q.num_vars() == 2 and q.num_patterns() == 1
+            and q.pattern(0).num_args() == 1):
+        vs = [z3.Int("k!stp05"), z3.Int("j!stp05")]
+        pat = z3.substitute_vars(q.pattern(0).arg(0), *reversed(vs))
+        if (z3.is_app(pat) and pat.decl().eq(fx) and z3.is_add(pat.arg(0))
+                and any(c.eq(vs[0]) for c in pat.arg(0).children()) and pat.arg(1).eq(vs[1])):
+            mark = z3.Function("macro.stp05" + sg, I, B)(vs[0])
+            out = z3.ForAll(vs, z3.substitute_vars(q.body(), *reversed(vs)), patterns=[z3.MultiPattern(pat, mark)])
+    cache[qid] = (q, out)
+    return out
+
+
 # ------------------------------------------------------------------------------------------- B (7) definitions withheld
 if not getattr(verify, "_c05_all_axioms", False):
     _prev_all_axioms = verify.all_axioms
@@ -501,6 +536,8 @@ if not getattr(verify, "_c05_all_axioms", False):
         defs = getattr(E, "_c05_defs", None)
         if defs and internal_for and str(internal_for).startswith("c05_"):
             ax = [a for a in ax if a.get_id() not in defs]
+        if internal_for is None and getattr(E.c, "key", None) in OPAQUE and OPAQUE[E.c.key]:
+            ax = [_with_step_marker(E, a) for a in ax]
         return ax
 
     verify.all_axioms = _all_axioms
